@@ -1,13 +1,13 @@
 #!/bin/bash
 # seed_sweep.sh "<VERIF_SEED values>" [seed ids...] : every archived seeded change x every seed value -> detection matrix
-# (isolated scratch copies; nothing in /repo or the committed evidence is touched)
+# (isolated scratch copies; nothing in /repo or the committed evidence is touched; SWEEP_BASE=<tree> starts from another tree than /repo)
 SEEDS=${1:-"1 2 3"}; shift
 IDS=${@:-$(ls /verif/seeded | grep -E '^C[0-9]+-[0-9]+$')}
 cd /verif
 for id in $IDS; do
   P=${id%%-*}
   S=$(mktemp -d /tmp/nt_sweep_XXXXXX)
-  rsync -a --exclude .git /repo/ "$S/"
+  rsync -a --exclude .git "${SWEEP_BASE:-/repo}/" "$S/"
   (cd "$S" && patch -p1 --no-backup-if-mismatch -s < /verif/seeded/$id/patch.diff) || { echo "$id PATCH-FAILS"; rm -rf "$S"; continue; }
   cp -a lean "$S.lean"
   row="$id"
